@@ -13,7 +13,15 @@ local or parameter, a field of `self`, `self` itself — seen through the conver
 by a `let` of one of the forms above or the translator emits `unsupported`.  This file is the MEANING of those terms.  Callees are looked up by
 name in an environment supplied by the theorem (the model's function for that name); random draws come from an explicit list and what is left
 of it is part of the result, so "drawn on this path, not on that one" is visible.  An ill-typed term, an unknown name, an exhausted draw
-list have no meaning (`none`); a Rust panic (`expect` on `Err`, a panic inside a callee) is `some (.panic ..)`.
+list, a `T::randomized()` of a type outside `drawKinds` have no meaning (`none`); a Rust panic (`expect` on `Err`, a panic inside a callee) is
+`some (.panic ..)`.  Two things this meaning does NOT say, and the theorems therefore do not either (reviewed in notes/audit_h/REPORT.md):
+a callee is a function of its arguments — it cannot take from the draw list, so "exactly one draw" is about the translated function's own
+statements and assumes the callees it names do not draw (true of every callee that is itself translated: none of the term languages has a
+draw outside `MiniApi`, and the `*_linked_*` theorems run linked callees on an empty draw list); and the draw kinds are interchangeable —
+each takes the head of the list, whatever its length (the widths 32 / 32 / 16 are the business of C15's own theorems).  The environment
+tables of Props/Source/ApiBase.lean answer an ill-typed CALL with the panic "ill-typed call", not with `none`; the three theorems stated up
+to panic text (`C15_translated_into_proof`, `C03_translated_client_new`, `C03_linked_client_new`) could not tell that from a Rust panic on
+inputs where the model panics too — on all other inputs (every accepted key) they can.
 -/
 import WowSrp.Model.Srp
 namespace WowSrp.MiniApi
